@@ -122,6 +122,17 @@ fn run(ctx: &RunCtx) -> Report {
     };
     let mut extra_addrs: BTreeSet<SocketAddrV4> = BTreeSet::new();
     let mut ack_target = 0usize;
+    // two further families, drawn from a random stream of their own:
+    // (1) token-bearing extra nodes for a mutable put (1 mutable run in 3): the 3xx majority is a majority
+    //     of ALL store requests, closest and extra;
+    // (2) cached put + empty-handed lookup (1 run in 5): the put's target was written a moment ago, so the
+    //     put starts from the cached closest nodes at once, while a lookup of the same target that was issued
+    //     just before it comes back without a single token (the peers answer it with 204 / without a token /
+    //     not at all) in the middle of the put's store phase.
+    let mut frng = Rng::new(crate::rng::key(ctx.seed, &[crate::rng::tag("c08-families")]));
+    let token_extras = !big && kind == 1 && frng.chance(1, 3);
+    let cached_overlap = !big && !token_extras && frng.chance(1, 5);
+    let mut t_put_floor = 0u64;
     let op = if big {
         // gather > 255 token-bearing nodes from other regions of the id space
         let mut extra: Vec<dht::Node> = vec![];
@@ -193,15 +204,84 @@ fn run(ctx: &RunCtx) -> Report {
         };
         let extra_box: Box<[dht::Node]> = extra.into_boxed_slice();
         sim.call(writer, "put+tokenless-extra", move |d| async move { Outcome::Put(d.put(request, Some(extra_box)).await) })
+    } else if token_extras {
+        // token-bearing extra nodes: what get_closest_nodes returned for the target or another id (every
+        // storer knows every other, so these are the storers themselves, each with its token); the extras
+        // are the planned ackers among them (or a random subset), possibly several times over
+        let o = sim.get_closest_nodes(writer, if frng.chance(1, 2) { frng.id() } else { target });
+        sim.run_ops(&[o], sim.now() + 30 * SEC);
+        let mut extra: Vec<dht::Node> = vec![];
+        if let Some(Outcome::Nodes(ns)) = sim.take_outcome(o) {
+            let only_ackers = frng.chance(2, 3);
+            for n in ns.iter().filter(|n| n.token().is_some()) {
+                let planned_ack = (0..n_raw).any(|i| rawnet.contact(i).1 == n.address() && plans[i] == PutReply::Ack) || !addrs[..n_raw].contains(&n.address());
+                if if only_ackers { planned_ack } else { frng.chance(1, 2) } {
+                    for _ in 0..frng.usize(1, 3) {
+                        extra.push(n.clone());
+                    }
+                }
+            }
+        }
+        report.probe("token_bearing_extra_nodes", extra.len() as u64);
+        report.probe("runs_with_token_bearing_extra_nodes", 1);
+        let request = PutRequestSpecific::PutMutable(PutMutableRequestArguments::from(item.clone(), None));
+        let extra_box: Box<[dht::Node]> = extra.into_boxed_slice();
+        sim.call(writer, "put+token-extra", move |d| async move { Outcome::Put(d.put(request, Some(extra_box)).await) })
     } else {
-        match kind {
+        let signer: [u8; 32] = rng.bytes(32).try_into().unwrap();
+        let issue = |sim: &Sim| match kind {
             0 => sim.put_immutable(writer, value.clone()),
             1 => sim.put_mutable(writer, item.clone(), None),
             2 => sim.announce_peer(writer, info_hash, Some(4000)),
-            _ => sim.announce_signed_peer(writer, info_hash, rng.bytes(32).try_into().unwrap()),
+            _ => sim.announce_signed_peer(writer, info_hash, signer),
+        };
+        if cached_overlap {
+            // warm-up: the same write, completed (its lookup result is cached for five minutes)
+            let w = issue(&sim);
+            sim.run_ops(&[w], sim.now() + 120 * SEC);
+            let _ = sim.take_outcome(w);
+            // from now on the storers leave lookups of this target empty-handed, but still answer writes
+            let t_switch = sim.now();
+            let mode = frng.below(3);
+            rawnet.set_hook(Box::new(move |rctx, sh, idx, from, msg: &Krpc| {
+                let lookup = matches!(msg.query_name(), Some("get") | Some("get_peers") | Some("get_signed_peers") | Some("find_node"));
+                if !lookup || rctx.now < t_switch || msg.target() != Some(target) {
+                    return HookResult::Default;
+                }
+                let opts = opts_for(&sh.peers[idx], from);
+                let me = rctx.me;
+                match mode {
+                    0 => rctx.send_after(0, me, from, krpc::error(&msg.tid, 204, "Method Unknown", &opts)),
+                    1 => {}
+                    _ => {
+                        // an answer without a token (and without nodes)
+                        let id = sh.peers[idx].id;
+                        rctx.send_after(0, me, from, krpc::response(&msg.tid, crate::bencode::Value::dict(vec![("id", crate::bencode::Value::bytes(&id))]), &opts));
+                    }
+                }
+                HookResult::Handled
+            }));
+            let pk = key.verifying_key().to_bytes();
+            let l = match (kind, frng.below(2)) {
+                (0, _) => sim.get_immutable(writer, target),
+                (1, _) => sim.get_mutable(writer, pk, None, None),
+                (_, 0) => sim.get_peers(writer, info_hash),
+                _ => sim.get_signed_peers(writer, info_hash),
+            };
+            let _ = l;
+            let delta = match frng.below(4) {
+                0 => 0,
+                1 => frng.range(1, 50) * MS,
+                2 => frng.range(50, 250) * MS,
+                _ => frng.range(250, 480) * MS,
+            };
+            sim.run_for(delta);
+            t_put_floor = sim.now();
+            report.probe("cached_put_with_empty_handed_lookup_runs", 1);
         }
+        issue(&sim)
     };
-    let t_put = sim.with_op(op, |o| o.issued_at);
+    let t_put = sim.with_op(op, |o| o.issued_at).max(t_put_floor);
     // 1 announce_peer run in 3: a second announce_peer for the same info hash with ANOTHER port is
     // issued while the first is in flight. Whatever happens to the first call (it may be superseded:
     // puts are keyed by target, see the open finding of C01), the second one is a put of its own:
@@ -425,6 +505,12 @@ fn run(ctx: &RunCtx) -> Report {
             }
             Res::ConflictRisk => report.violate("wrong-error", "conflict-risk-without-concurrent-put", "ConflictRisk returned with no concurrent put".into()),
             Res::Query(q) => {
+                // the put gave up although one of its store requests was outstanding, unexpired, and then
+                // acknowledged in time: that acknowledgement reached the caller's node before the request expired
+                let pending_ack = stores.iter().find(|st| st.t_send <= t_done && first_reply.get(&(st.dst, st.tid)).map(|v| v.1 == 0 && v.0 > t_done && v.0.saturating_sub(st.t_send) < 500 * MS).unwrap_or(false));
+                if let (Some(st), false) = (pending_ack, majority_3xx) {
+                    report.violate("false-error", "error-before-requests-expired", format!("put returned {q} at t={}ms while its store request to {} (sent at t={}ms) was still outstanding; that request was acknowledged {} ms after it was sent ({n} store requests, 301: {e301}, 302: {e302})", t_done / MS, st.dst, st.t_send / MS, first_reply[&(st.dst, st.tid)].0.saturating_sub(st.t_send) / MS));
+                }
                 if acks_in_time >= 1 && !majority_3xx {
                     report.violate("false-error", "error-despite-ack", format!("put returned {q} although {acks_in_time} acknowledgement(s) reached the writer in time ({n} store requests, 301: {e301}, 302: {e302}, expected acks in the big scenario: {ack_target})"));
                 }
